@@ -283,7 +283,11 @@ fn run_scenario(sc: &Value, t: &mut Tracer) {
 fn run_tween(sc: &Value, t: &mut Tracer) {
 	let g = |k: &str| sc[k].as_u64().unwrap();
 	let speed = |u: &str, n: u64, d: u64| {
-		if u == "tps" { ClockSpeed::TicksPerSecond(n as f64 / d as f64) } else { ClockSpeed::SecondsPerTick(n as f64 / d as f64) }
+		match u {
+			"tps" => ClockSpeed::TicksPerSecond(n as f64 / d as f64),
+			"spt" => ClockSpeed::SecondsPerTick(n as f64 / d as f64),
+			_ => ClockSpeed::TicksPerMinute(n as f64 / d as f64),
+		}
 	};
 	let (u0, u1) = (sc["u0"].as_str().unwrap(), sc["u1"].as_str().unwrap());
 	let d = g("d");
